@@ -821,6 +821,64 @@ pub fn hidden_simple_order(hi: u32, lo: u32, in_red: bool) -> Vec<u8> {
     b
 }
 
+/// An INVALID stream that is complete for a reader which treats a multi-pixel sub-image as finished after its FIRST
+/// pixel: the 2x1 meta prefix image of an 8x1 picture has a single-symbol green code and a two-symbol code in channel
+/// `which` (0 red, 1 blue, 2 alpha), so each pixel costs one bit and must be read; the second pixel raises the group
+/// count (red: 257 groups) or is simply there (blue / alpha: its bit shifts everything after it); the stream then holds
+/// exactly what the first pixel alone would ask for - one group of single-symbol codes - followed by a normal code
+/// whose code-length code uses no symbol.  The specification (and the reference decoder) read both pixels and meet the
+/// invalid code.
+pub fn first_pixel_only(which: u32) -> Vec<u8> {
+    let mut bw = BitWriter::new();
+    bw.bits(0x2f, 8);
+    bw.bits(7, 14); // width 8
+    bw.bits(0, 14); // height 1
+    bw.bit(false);
+    bw.bits(0, 3);
+    bw.bit(false); // no transform
+    bw.bit(false); // no colour cache
+    bw.bit(true); // meta prefix image
+    bw.bits(0, 3); // block size 4: a 2x1 entropy image
+    bw.bit(false); // entropy image: no colour cache
+    let single0 = |bw: &mut BitWriter| {
+        bw.bit(true);
+        bw.bit(false);
+        bw.bit(false);
+        bw.bit(false);
+    };
+    let two = |bw: &mut BitWriter| {
+        bw.bit(true); // simple
+        bw.bit(true); // two symbols
+        bw.bit(false); // first symbol in one bit
+        bw.bits(0, 1);
+        bw.bits(1, 8);
+    };
+    single0(&mut bw); // green
+    for ch in 0..3 {
+        if ch == which {
+            two(&mut bw);
+        } else {
+            single0(&mut bw);
+        }
+    }
+    single0(&mut bw); // distance
+    bw.bit(false); // first meta pixel: symbol 0 in the two-symbol channel
+    // what a reader that stops here expects: one group of single-symbol codes, then the end
+    for _ in 0..5 {
+        single0(&mut bw);
+    }
+    // for the specification the first bit of that group was the SECOND meta pixel (symbol 1: group 256 when the channel
+    // is red); what follows is an invalid normal code either way
+    bw.bit(false);
+    bw.bits(0, 4);
+    for _ in 0..4 {
+        bw.bits(0, 3);
+    }
+    let mut b = bw.bytes;
+    b.extend_from_slice(&[0; 8]);
+    b
+}
+
 /// An INVALID stream (a second colour-indexing transform) built so that a reader which sizes the preceding
 /// predictor / colour-transform sub-image too LARGE never sees the violation: the sub-image's pixels cost one bit each
 /// (two-symbol green code, everything else zero-bit), the violation sits right after the `r` pixels a correct reader
